@@ -47,6 +47,11 @@ def run(ctx):
     fa = ctx.facts
     cg = CallGraph(fa)
     C01.run(ctx)   # the log protocol is a necessary part of C02
+    # a crash snapshot is readable only if every committed state is: the header chain of the file (C04) and the
+    # single storage bracket around a transaction including its rollback (C03) are necessary parts as well
+    from rules import C03, C04
+    C04.run(ctx)
+    C03.run(ctx)
     b = ctx.anchor("R02a", TNS)
     if b:
         storage_local = None
